@@ -149,6 +149,19 @@ func (e *Env) Violate(v *Violation) {
 	e.mu.Lock()
 	defer e.mu.Unlock()
 	v.Property, v.Seed, v.Tier = e.Prop, e.Seed, e.Tier
+	if v.ChildEnv == nil {
+		// runtime settings the observing child announced
+		switch o := v.Observed.(type) {
+		case *plan.Res:
+			if o != nil && o.Env != "" {
+				v.ChildEnv = strings.Fields(o.Env)
+			}
+		case plan.Res:
+			if o.Env != "" {
+				v.ChildEnv = strings.Fields(o.Env)
+			}
+		}
+	}
 	e.viol = append(e.viol, v)
 	if len(e.viol) > maxViolations {
 		return
